@@ -1,5 +1,5 @@
 PROP = {
-    "coq": ["C16"],
+    "coq": ["C16", "C16b"],
     "exhaustive": False,
     "rule": "NewClient: the six schemes x 11 targets x all 2^7 subsets of optional fields (speed, data bits, parity, stop bits, "
             "timeout, certificate, CA pool) zero/non-zero with boundary values (incl. negative and extreme durations, 2^64-1); "
@@ -10,10 +10,16 @@ PROP = {
             "and random pairs, each followed by WriteUint32 whose transmitted bytes show the encoding in force. "
             "Wiring: for each of the six schemes the real Open() against a loopback TCP listener / TLS peer / UDP socket / pty; "
             "socket kind and framing (MBAP header vs CRC-16) of the first request as seen by the peer; for servers the real Start() "
-            "probed over plain TCP and TLS.",
+            "probed over plain TCP and TLS. "
+            "Enforced defaults: for each of the six schemes x Speed in {unset, 300, 1200, 2400, 4800, 9600, 19200, 115200} (RTU framing; "
+            "unset and 1200 for MBAP in the quick tier) x Timeout {unset, one seeded explicit value of 120..200 ms; more in the thorough tier} "
+            "NewClient + the real Open() against a silent loopback peer / pty, one seeded read, wall time until the call returns (measured "
+            "twice, each on a newly opened client): request timed out, never before the documented timeout, the quicker of the two by the "
+            "model-predicted return instant + 150 ms.",
     "assumptions": [
         "uint is 64 bit and time.Duration an int64 number of nanoseconds (model: N and Z)",
         "the serial wiring is observed through a Linux pty (skipped, and counted as skipped, when /dev/ptmx is unavailable)",
+        "enforced timeouts are wall-clock measurements: scheduling delay of the quicker of two measurements below 150 ms (of either below 1 s)",
     ],
 }
 
@@ -24,11 +30,15 @@ CLAIM = {
             "19200 bps; 8 data bits; 2 stop bits without parity, 1 with; caller values kept; unit 1, big endian, high word first); the "
             "transport opened is the documented (socket, framing) pair for each scheme; NewServer succeeds iff scheme is tcp/tcp+tls, the host part "
             "is non-empty and credentials are present for tcp+tls, with defaults 10 clients / 120 s; SetEncoding refuses every selector outside {1,2} "
-            "and leaves the state unchanged. split_url is proved to be exactly 'cut at the first occurrence'. The model is compared with the real "
+            "and leaves the state unchanged. The opened client ENFORCES the kept timeout (C16b: NewClient composed with Open() and the timed "
+            "exchange model of C07): for every accepted configuration, speed and valid request a silent peer is reported as request-timed-out, never "
+            "before the documented timeout and never after max(timeout, end of the request's own transmission) (+ one 10 ms poll on a serial port); "
+            "exactly at the documented timeout for tcp/tcp+tls/udp, and for rtuovertcp/rtuoverudp whenever the request fits in it. split_url is proved to be exactly 'cut at the first occurrence'. The model is compared with the real "
             "constructors, SetEncoding, Open() and Start() on every run.",
     "note": "Trusted: Coq kernel, extraction (ExtrOcamlBasic only), modeld driver and its native URL reader used for P, Go harness incl. its loopback "
             "peers, VerifClientConfig/VerifServerConfig/VerifNewClientOnConn/VerifListenAddr pass-through hooks. The wiring of Open()/Start() is "
-            "tied to the model by observation (6 client schemes, 2 server schemes), not by proof about the Go code.",
+            "tied to the model by observation (6 client schemes, 2 server schemes), not by proof about the Go code; likewise that Open() hands the kept "
+            "timeout and speed unchanged to the transport (Model/Opened.v) is tied to the code by the timed observation of silent peers.",
     "technique": "Coq proof (list induction for the first-occurrence split, case analysis over the scheme table) + differential correspondence "
                  "with structured, near-miss and random configurations; loopback observation of sockets and framing",
 }
